@@ -230,6 +230,17 @@ def fromCode (o : Obj) : Except ErrKind Obj :=
 /-- `del dataset.<keyword>` -/
 def DS.del (d : DS) (k : String) : DS := d.filter (fun e => e.1 != k)
 
+/-- an assignment or deletion on a coded-concept dataset -/
+inductive Op
+  | set (k v : String)
+  | del (k : String)
+
+def applyOp (d : DS) : Op → DS
+  | .set k v => DS.set d k v
+  | .del k => DS.del d k
+
+def applyOps (d : DS) (ops : List Op) : DS := ops.foldl applyOp d
+
 /-! ### object store: `from_dataset(dataset, copy)` -/
 
 inductive Cls | dataset | codedConcept | notDataset
